@@ -48,6 +48,37 @@ def replay(f):
         if msg:
             return dict(reproduced=True, signature="real_code:%r" % text, detail="real_code(%r): %s" % (text, msg))
         return dict(reproduced=False, signature="", detail="rope agrees with tokenize on %r" % text)
+    if k in ("ffield_hidden", "ffield_word", "literal_visible"):
+        import io
+        import tokenize
+        from rope.base import worder
+
+        text = w["text"]
+        try:
+            compile(text, "<w>", "exec")
+            toks = list(tokenize.generate_tokens(io.StringIO(text).readline))
+        except (SyntaxError, tokenize.TokenError, ValueError) as e:
+            return dict(reproduced=False, signature="", detail="witness is not valid source: %s" % e)
+        starts = [0]
+        for i, ch in enumerate(text):
+            if ch == "\n":
+                starts.append(i + 1)
+        rc = simplify.real_code(text)
+        wd = worder.Worder(text)
+        names = [(starts[t.start[0] - 1] + t.start[1], t.string) for t in toks if t.type == tokenize.NAME and t.string != "x"]
+        for a, nm in names:  # NAME tokens the tokenizer sees (inside replacement fields)
+            if rc[a:a + len(nm)] != nm:
+                return dict(reproduced=True, signature="ffield:hidden:%r" % text, detail="tokenize reports NAME %r at %d of %r, real_code shows %r there" % (nm, a, text, rc[a:a + len(nm)]))
+            for o in range(a, a + len(nm)):
+                if wd.get_word_at(o) != nm:
+                    return dict(reproduced=True, signature="ffield:word:%r" % text, detail="get_word_at(%d) on %r = %r, tokenize says NAME %r" % (o, text, wd.get_word_at(o), nm))
+        if not names:
+            spans = toklex.string_comment_spans(text)
+            for _kind, a, b in spans:
+                inner = rc[a:b]
+                if any(ch.isalnum() for ch in inner[len(inner) - len(inner.lstrip("rRbBuUfF")):].strip("'\"")):
+                    return dict(reproduced=True, signature="ffield:visible:%r" % text, detail="real_code(%r) shows literal characters: %r" % (text, inner))
+        return dict(reproduced=False, signature="", detail="rope agrees with tokenize on %r" % text)
     if k.startswith("lines_"):
         code = w["code"]
         sla = codeanalyze.SourceLinesAdapter(code)
